@@ -475,6 +475,10 @@ def apply_op(S, op):
             fix_objective_as_constraint(m)
         elif name == "add_loopless":
             from cobra.flux_analysis.loopless import add_loopless
+            if any(abs(b) == INF for r in m.reactions for b in r.bounds):
+                # the formulation's big-M is the largest bound: an infinite coefficient makes GLPK abort() the
+                # process inside glp_scale_prob on the next solve (sandbox hazard, outside what a rollback can undo)
+                raise Disabled("add_loopless on a model with infinite bounds")
             add_loopless(m)
         elif name == "add_moma_linear":
             from cobra.flux_analysis.moma import add_moma
